@@ -300,7 +300,8 @@ func (p *Program) parseContractFile(pkg *packages.Package, file string) error {
 				opaque = true
 				rest = strings.TrimSpace(strings.TrimPrefix(rest, "opaque "))
 			}
-			pf, err := p.parsePure(pkg, rest, false)
+			// `hfunc opaque f(...) T reads ...` without a body: an uninterpreted function of the components read
+			pf, err := p.parsePure(pkg, rest, opaque && !strings.Contains(rest, " = "))
 			if err != nil {
 				return fail("%v", err)
 			}
